@@ -352,6 +352,33 @@ def t_rejects(sess):
     cover = z3.Or(*[z3.And(*p.branch_conds) for p in paths if isinstance(p.exc, ValueError)]) if any(isinstance(p.exc, ValueError) for p in paths) else z3.BoolVal(False)
     sess.prove("rejects: every pair of unequal grain counts raises ValueError", [na != nb], cover)
     sess.satisfiable("rejects: reach", [na != nb, cover])
+    # three minerals: a mismatch confined to the last one must be refused as well
+    def fn3():
+        a, b, c3 = mk(1, 1), mk(1, 1), mk(1, 1)
+        a.n_grains, b.n_grains, c3.n_grains = symint("na"), symint("nb"), symint("nc")
+        minerals.voigt_averages([a, b, c3], [P.olivine], [1.0])
+        return "returned"
+
+    with np_installed(minerals, mods["tensors"]):
+        paths3, _ = sym.explore(fn3, catch=(Exception,))
+    nc = z3.Int("nc")
+    alleq = z3.And(na == nb, nb == nc)
+    for k, p in enumerate(paths3):
+        if isinstance(p.exc, ValueError):
+            sess.prove(f"rejects (3 minerals) path {k}: ValueError only when some grain count differs", p.pc, z3.Not(alleq))
+        else:
+            sess.prove(f"rejects (3 minerals) path {k}: the average proceeds only when all grain counts are equal", p.pc, alleq)
+    for (co, cf) in ((2, 1), (1, 2), (2, 2)):
+        def fn4():
+            try:
+                minerals.voigt_averages([mk(1, 1), mk(1, 1), mk(co, cf)], [P.olivine], [1.0])
+                return None
+            except ValueError as e:
+                return e
+
+        with np_installed(minerals, mods["tensors"]):
+            paths4, _ = sym.explore(fn4, catch=(Exception,))
+        sess.prove(f"rejects (3 minerals): third mineral with ({co},{cf}) snapshots against (1,1): ValueError", [], z3.BoolVal(paths4[0].value is not None))
     # snapshot counts (list lengths are concrete: enumerate 1..3 x 1..3 for both lists)
     for (ao, af, bo, bf) in it.product((1, 2), repeat=4):
         def fn2():
@@ -366,3 +393,91 @@ def t_rejects(sess):
         raised = paths[0].value is not None
         consistent = ao == af == bo == bf
         sess.prove(f"rejects: snapshot counts (orientations, fractions) = ({ao},{af}) and ({bo},{bf}): ValueError iff inconsistent", [], z3.BoolVal(raised == (not consistent)))
+
+
+def default_cex(name):
+    return {"replay": "vf.props.C10:replay_generic", "case": {}, "cls": {"kind": "Voigt average deviates from the volume-weighted sum of rotated tensors / mismatched minerals accepted"}}
+
+
+def replay_generic(case):
+    """Public API on random textures for every assemblage, built-in and custom stiffness tensors, 1-3 minerals:
+    einsum oracle, symmetry, co-rotation, aligned grain, order independence, refusal of mismatched minerals."""
+    import numpy as np
+    import pydrex
+    from pydrex import core, minerals
+    from scipy.spatial.transform import Rotation
+
+    P, Fb = core.MineralPhase, core.MineralFabric
+    rng = np.random.default_rng(12)
+    problems = []
+
+    def tens(M):
+        T = np.empty((3, 3, 3, 3))
+        for a, b, c, d in it.product(range(3), repeat=4):
+            T[a, b, c, d] = M[_voigt_index(a, b), _voigt_index(c, d)]
+        return T
+
+    def mk(phase, ng, ns, seed):
+        r = np.random.default_rng(seed)
+        A = [Rotation.random(ng, random_state=int(r.integers(1 << 30))).as_matrix() for _ in range(ns)]
+        f = [r.dirichlet(np.ones(ng) * 0.5) for _ in range(ns)]
+        m = pydrex.Mineral(phase=phase, fabric=Fb.olivine_A if phase == P.olivine else Fb.enstatite_AB, n_grains=ng, fractions_init=f[0], orientations_init=A[0])
+        m.fractions, m.orientations = list(f), list(A)
+        return m
+
+    def oracle(ms, asm, fr, st, k):
+        want = np.zeros((6, 6))
+        for m in ms:
+            T = tens(getattr(st, m.phase.name))
+            for g in range(m.n_grains):
+                Rm = m.orientations[k][g].T
+                rot = np.einsum("ia,jb,kc,ld,abcd->ijkl", Rm, Rm, Rm, Rm, T)
+                want += np.array([[rot[a, b, c, d] for (c, d) in PAIRS] for (a, b) in PAIRS]) * m.fractions[k][g] * fr[asm.index(m.phase)]
+        return want
+
+    custom = minerals.StiffnessTensors()
+    for nm in ("olivine", "enstatite"):
+        X = rng.normal(size=(6, 6))
+        setattr(custom, nm, getattr(custom, nm) + 5 * (X + X.T))
+    for st, label in ((minerals.StiffnessTensors(), "built-in"), (custom, "custom")):
+        for asm, fr, phases in (([P.olivine], [1.0], [P.olivine]), ([P.enstatite], [1.0], [P.enstatite]), ([P.olivine, P.enstatite], [0.7, 0.3], [P.olivine, P.enstatite]),
+                                ([P.enstatite, P.olivine], [0.2, 0.8], [P.olivine, P.enstatite]), ([P.enstatite, P.olivine], [0.2, 0.8], [P.enstatite, P.olivine])):
+            ms = [mk(ph, 7, 2, 3 + i) for i, ph in enumerate(phases)]
+            out = pydrex.voigt_averages(ms, asm, fr, st) if label == "custom" else pydrex.voigt_averages(ms, asm, fr)
+            for k in range(2):
+                want = oracle(ms, asm, fr, st, k)
+                if np.abs(out[k] - want).max() > 1e-8:
+                    problems.append(f"{label} tensors, assemblage {[a.name for a in asm]}, minerals {[p_.name for p_ in phases]}: differs from the weighted sum by {np.abs(out[k] - want).max():.2e}")
+                if np.abs(out[k] - out[k].T).max() > 1e-9:
+                    problems.append(f"{label}: result not symmetric")
+            rev = pydrex.voigt_averages(ms[::-1], asm, fr, st)
+            if np.abs(rev - out).max() > 1e-9:
+                problems.append(f"{label}: result depends on the order of the minerals")
+    # co-rotation and aligned grain
+    m = mk(P.olivine, 5, 1, 9)
+    Q = Rotation.from_euler("zxz", [0.4, 1.2, 2.1]).as_matrix()
+    base = pydrex.voigt_averages([m], [P.olivine], [1.0])[0]
+    m2 = mk(P.olivine, 5, 1, 9)
+    m2.orientations = [m.orientations[0] @ Q.T]
+    rot = pydrex.voigt_averages([m2], [P.olivine], [1.0])[0]
+    Tb = np.einsum("ia,jb,kc,ld,abcd->ijkl", Q, Q, Q, Q, tens(base))
+    wantrot = np.array([[Tb[a, b, c, d] for (c, d) in PAIRS] for (a, b) in PAIRS])
+    if np.abs(rot - wantrot).max() > 1e-8:
+        problems.append("average does not co-rotate with the reference frame")
+    one = pydrex.Mineral(phase=P.enstatite, fabric=Fb.enstatite_AB, n_grains=1, fractions_init=np.array([1.0]), orientations_init=np.eye(3).reshape(1, 3, 3))
+    if np.abs(pydrex.voigt_averages([one], [P.enstatite], [1.0])[0] - minerals.StiffnessTensors().enstatite).max() > 1e-10:
+        problems.append("one aligned grain does not return the single-crystal tensor")
+    # refusal of mismatched minerals, also when only the last of three differs
+    for bad in ("grains", "snapshots", "fractions"):
+        ms = [mk(P.olivine, 4, 2, 1), mk(P.enstatite, 4, 2, 2), mk(P.olivine, 5 if bad == "grains" else 4, 3 if bad == "snapshots" else 2, 3)]
+        if bad == "fractions":
+            ms[2].fractions = ms[2].fractions[:1]
+        for order in (ms, ms[::-1], [ms[0], ms[2], ms[1]]):
+            try:
+                pydrex.voigt_averages(order, [P.olivine, P.enstatite], [0.5, 0.5])
+                problems.append(f"minerals with mismatched {bad} accepted ({[order.index(x) for x in ms]})")
+            except ValueError:
+                pass
+            except Exception as e:  # noqa: BLE001
+                problems.append(f"minerals with mismatched {bad}: {type(e).__name__} instead of ValueError")
+    return {"reproduced": bool(problems), "detail": sorted(set(problems))[:6] or "Voigt averages equal the oracle"}
